@@ -107,7 +107,9 @@ def replay_rebinding(inputs, obl):
     from klongpy import KlongInterpreter
     from klongpy.core import KLONG_UNDEFINED
     hist = [['a::3', 'a%0', 'a::7%2', 'a%0'], ['a::[1 2 3]', 'a^2', 'a::+/[1.5 2.5]', 'a^2'], ['a::3', 'a*2', 'a::"ab"', 'a*2'],
-            ['a::6;b::3', 'a%b', 'b::+/[0 0]', 'a%b'], ['s::2;n::3', 's*n', 's::"ab"', 's*n'], ['a::[1 2]', '+/a', 'a::[]', '+/a']]
+            ['a::6;b::3', 'a%b', 'b::+/[0 0]', 'a%b'], ['s::2;n::3', 's*n', 's::"ab"', 's*n'], ['a::[1 2]', '+/a', 'a::[]', '+/a'],
+            ['a::6;b::3;g::{b::[0 5]@x}', 'a%b', 'g(0)', 'a%b'], ['a::3;g::{a::"ab"}', 'a*2', 'g()', 'a*2'],
+            ['a::5', 't::+/a', 'a::[1 2 3]', 't::+/a'], ['f::{,+/x}', 'f(5)', 'f([1 2 3])'], ['f::{,+\\x}', 'f(5)', 'f([1 2 3])']]
 
     def run(h, stub):
         real = ki.compile_expr
